@@ -66,7 +66,7 @@ def run_history(h):
     steps = []
     try:
         leaves0 = [L(i) for i in range(1, 9)]
-        box = Box([leaves0[5], (leaves0[6],)], 7, [[1, 6], [1, 7]])
+        box = Box([leaves0[5], leaves0[6]], 7, [[1, 6], [1, 7]])      # two plain leaves: a reversed reading is structurally acceptable
         tree = {'b': [leaves0[0], collections.deque([leaves0[1]], maxlen=3)], 'a': collections.defaultdict(list, {'y': leaves0[2], 'x': leaves0[3]}),
                 'c': U.NT2(leaves0[4], None), 'd': box, 'e': collections.OrderedDict([('q', leaves0[7]), ('p', ())])}
         flat_leaves, spec = optree.tree_flatten(tree, namespace=NS)
@@ -78,6 +78,10 @@ def run_history(h):
         suffix_tree['b'][0] = (1, 2)
         conflicting = {'b': [1, 2, 3], 'a': 1, 'c': 1, 'd': 1, 'e': 1}
         other_keys = collections.OrderedDict([('zz', (1, 2)), ('yy', 3), ('b', 1), ('a', 1), ('c', 1)])     # key mismatch, OrderedDict operand
+        # a key mismatch located AT the OrderedDict node whose stored keys ('q', 'p') are not in sorted order
+        mismatch_e = copy.deepcopy(suffix_tree)
+        mismatch_e['e'] = collections.OrderedDict([('q', 1), ('zz', 2)])
+        expected_fut = [id(x) for x in spec.flatten_up_to(suffix_tree)]
         partner_ok = optree.tree_structure(suffix_tree, namespace=NS)
         partner_conf = optree.tree_structure(conflicting, namespace=NS)
         partner_keys = optree.tree_structure(other_keys, namespace=NS)
@@ -86,6 +90,7 @@ def run_history(h):
         tree_alive = True
         for a in h['hist']:
             inputs_before = snapshot(tree) if tree_alive else None
+            own_reg_ok = True
             flat_before = [id(x) for x in flat_leaves] if flat_leaves is not None else None
             err = ''
             try:
@@ -130,12 +135,15 @@ def run_history(h):
                                 pass
                     elif what == 'flatten_up_to_ok':
                         try:
-                            _ = spec.flatten_up_to(suffix_tree)
+                            got_fut = [id(x) for x in spec.flatten_up_to(suffix_tree)]
+                            # a treespec keeps the registration it was made with: if it accepts the tree at all, it reads it
+                            # with its own flatten function, not with whatever is registered for the class now
+                            own_reg_ok = got_fut == expected_fut
                         except ValueError:
                             if registered_same:      # the tree's custom node is classified by the CURRENT registry
                                 raise
                     elif what == 'flatten_up_to_fail':
-                        for t in (conflicting, other_keys, 3):
+                        for t in (conflicting, other_keys, 3, mismatch_e):
                             try:
                                 spec.flatten_up_to(t)
                             except ValueError:
@@ -155,7 +163,10 @@ def run_history(h):
                     registered = False
                     registered_same = False
                 elif a == 'reregister':
-                    optree.register_pytree_node_class(Box, namespace=NS)
+                    # a DIFFERENT registration of the same class: children in reverse order, rebuilt reversed
+                    optree.register_pytree_node(Box, lambda b: (tuple(reversed(b.children)), U.mk_meta(b.meta), tuple(reversed([U.mk_key(e) for e in b.ent]))),
+                                                lambda m, ch: Box(list(reversed(ch)), U.proj_meta(m), [[1, 6], [1, 7]][:len(ch)]),
+                                                path_entry_type=optree.GetItemEntry, namespace=NS)
                     registered = True
                 elif a == 'delete_tree':
                     tree = box = flat_leaves = leaves0 = None
@@ -168,7 +179,7 @@ def run_history(h):
             obs = observe(spec)
             changed = [k for k in obs0 if obs[k] != obs0[k]]
             partner_changed = [k for p in partners.values() for k in partner_obs[id(p)] if observe(p)[k] != partner_obs[id(p)][k]]
-            step = {'a': a, 'err': err, 'spec_changed': changed, 'operand_changed': sorted(set(partner_changed)),
+            step = {'a': a, 'err': err, 'own_reg_ok': own_reg_ok, 'spec_changed': changed, 'operand_changed': sorted(set(partner_changed)),
                     'inputs_mutated': tree_alive and inputs_before is not None and snapshot(tree) != inputs_before,
                     'leaf_list_mutated': flat_leaves is not None and flat_before is not None and [id(x) for x in flat_leaves] != flat_before}
             if not tree_alive:
